@@ -77,7 +77,7 @@ def rule_codec(S, res):
                 n += 1
                 if not (b.owner.startswith("polytune::utils::serde::") or "file_or_mem_buf" in b.owner):
                     res.bad("R7.1", "codec|%s" % b.owner.rsplit("::", 1)[-1], "bincode is used directly in %s, bypassing utils::serde (fixed-width codec)" % b.owner, where(b, bi))
-    res.floor("bincode_codec_calls", n, 5)
+    res.floor("bincode_codec_calls", n, 3)
     for c, sites in cfgs.items():
         if c.endswith("config::legacy"):
             res.ok("R7.1", "config|legacy", where(sites[0][0], sites[0][1]), "%d construction(s) of the fixed-width bincode configuration" % len(sites))
@@ -224,7 +224,7 @@ def rule_secret_branches(S, res):
                         if (ck, 0, None) in sec_nodes or (ck, 0, "*") in sec_nodes:
                             bad += 1
                             res.bad("R7.2", "%s|%s" % (b.owner.replace("polytune::", ""), tail), "`%s` keeps or drops elements depending on secret data: the length of what is built (and sent) would depend on private values" % tail, where(b, bi))
-    res.floor("secret_conditioned_branches", n_sw, 8)
+    res.floor("secret_conditioned_branches", n_sw, 4)
     res.count("secret_conditioned_abort_checks", n_abort)
     if not bad:
         res.ok("R7.2", "engine", "", "%d branches on secret values (%d of them abort checks): none controls a channel operation, an await, a length-changing container operation or the Some/None pattern of a message" % (n_sw, n_abort))
@@ -245,6 +245,6 @@ def rule_lengths(S, res, sec_nodes):
             if ln["k"] != "const" and any(x in sec_nodes for x in fg.operand_nodes(s.bk, ln)):
                 bad += 1
                 res.bad("R7.3", "%s|%s|len" % (s.body.owner.rsplit("::", 1)[-1], "/".join(s.label or ["?"])), "the expected length of a received vector depends on secret data", fl(s.sp))
-    res.floor("expected_length_arguments", n, 15)
+    res.floor("expected_length_arguments", n, 8)
     if not bad:
         res.ok("R7.3", "lengths", "", "%d expected-length arguments, none value-dependent on a secret" % n)
